@@ -2,3 +2,5 @@ import PoorModel.Prelude
 import PoorModel.Range
 import PoorModel.HeaderValue
 import PoorModel.Drv.Range
+import PoorModel.Reader
+import PoorModel.Drv.Reader
